@@ -71,6 +71,23 @@ func escQuoteCP(c []int) string {
 	return sb.String()
 }
 
+// enumItemType is the schema type of a literal: what it is, not what its text looks like ("1.5" is a string).
+func enumItemType(it Value) string {
+	switch it.T {
+	case "str":
+		return "string"
+	case "bool":
+		return "boolean"
+	case "null":
+		return "null"
+	}
+	b := string(intsToBytes(it.B))
+	if strings.ContainsAny(b, ".") && !strings.ContainsAny(b, "eE") {
+		return "float"
+	}
+	return "integer"
+}
+
 // enumLit is the literal as the layout writes it.
 func enumLit(it Value, layout int) string {
 	if layout == 7 && it.T == "str" {
@@ -201,6 +218,10 @@ func init() {
 					bad("enum", text, fmt.Sprintf("Values() = %d items, err %v", len(vals), err), "")
 				} else {
 					for i, v := range vals {
+						if want := enumItemType(c.Items[i]); string(v.Type) != want {
+							bad("enum", text, fmt.Sprintf("Values()[%d] = %s has type %q, the literal is a %s", i, v.Value, v.Type, want), "")
+							break
+						}
 						if string(v.Value) != enumLit(c.Items[i], c.Layout) {
 							bad("enum", text, fmt.Sprintf("Values()[%d] = %s, source has %s", i, v.Value, enumLit(c.Items[i], c.Layout)), "")
 							break
